@@ -7,7 +7,7 @@ CONSTANTS
   MaxUpd = 0
   WritesPerRead = 3
   VersionRules = {"cur+1"}
-  WriteGuards = {TRUE}
+  WriteGuards = {2}
   ReuseSlots = TRUE
   EagerFinish = FALSE
   RecordHist = FALSE
